@@ -183,8 +183,7 @@ class RealRouter:
 
     def resolve(self, path, verb):
         """Answer of RadiRouter.resolve with the verb chain of Ombott.to_route, in the vocabulary of the spec."""
-        chain = [verb, 'GET', 'ANY'] if verb == 'HEAD' else [verb, 'ANY']
-        end_point, err = self.router.resolve(l2s(path), chain)
+        end_point, err = self.app.to_route('/' + l2s(path), verb)     # the verb chain is Ombott.to_route's
         if end_point is None:
             if err[0] == 404:
                 return {'k': '404'}
